@@ -131,6 +131,7 @@ def runPrim (o : Oracle) (p : Prog) (inp : Input) : List Instr → Cfg → R
 def taken (jm : Bool) : Val → Bool
   | .bool b => if jm then b else !b
   | .i64 n => if jm then n != 0 else n == 0
+  | .int n => if jm then n != 0 else n == 0      -- what `len()` pushes
   | _ => false
 
 /-- pop the value a branch tests -/
